@@ -1520,6 +1520,48 @@ func nodeExclusionRule(p *chk.Prog, r *chk.Report) {
 	has = chk.GSame(has, g.GPat(true, "metav1.HasLabel(N.ObjectMeta, K)", chk.H("N", n), chk.H("K", constStr(f, "node.kubernetes.io/exclude-from-external-load-balancers"))))
 	spec := chk.GAnd(g.GPat(false, "N == nil", chk.H("N", n)), has)
 	why := g.BoolResultIs(spec)
+	if why != "" {
+		// the nil test folded into a nil-safe accessor: the lookup is made in a local that is N.Labels, or nil where N is nil
+		// (a lookup in a nil map finds nothing, which is the answer for a nil node)
+		key := chk.H("K", constStr(f, "node.kubernetes.io/exclude-from-external-load-balancers"))
+		isNil := g.GPat(true, "N == nil", chk.H("N", n))
+		hasSafe := chk.GBool(true, func(e ast.Expr) bool {
+			id, ok := ast.Unparen(e).(*ast.Ident)
+			if !ok {
+				return false
+			}
+			rhs, idx := g.DefOf(id, g.FactSite(id))
+			if rhs == nil || idx != 1 {
+				return false
+			}
+			m := f.MatchWith("M[K]", rhs, key)
+			if m == nil {
+				return false
+			}
+			mid, isId := ast.Unparen(m["M"]).(*ast.Ident)
+			if !isId {
+				return false
+			}
+			vals, okv := g.ReachingValues(mid, g.FactSite(mid))
+			if !okv {
+				return false
+			}
+			labels := 0
+			for _, v := range vals {
+				switch {
+				case v.Rhs != nil && f.MatchWith("N.Labels", v.Rhs, chk.H("N", n)) != nil:
+					labels++
+				case v.Rhs != nil && f.IsNilLit(v.Rhs) && g.Dominated(v.Def, isNil):
+				default:
+					return false
+				}
+			}
+			return labels > 0
+		})
+		if g.BoolResultIs(hasSafe) == "" {
+			why = ""
+		}
+	}
 	x.Check("IsNodeExcludedFromBalancers:label-presence", f.Pos(), why == "", "", "the exclusion of a node does not depend on the presence of the label alone: "+why)
 }
 
